@@ -606,4 +606,37 @@ def slotsFinderShape : Bool × Bool × Bool := (true, true, true)
 /-- `load` restores "__jsonclass__" on every path out of the `setattr` loop (`try/finally`). -/
 def restoresInFinally : Bool := true
 
+/- ---------- constants for C20 / C08 compared with the source on every run ---------- -/
+
+/-- The recursive `dump(…)` call sites of the code (list comprehension, dict comprehension, field loop) and
+    whether each forwards `serialize_method, ignore_attribute, ignore, config` unchanged: the model's
+    `dumpList`, `dumpKVs` and `dumpFields` call `dump X sm ia ig` with the arguments they were given. -/
+def dumpCallSites : List (String × Bool) := [("list", true), ("dict", true), ("field", true)]
+
+/-- `dump` looks `type(obj)` up in `config.serialize_handlers` before every `isinstance` test and returns a
+    non-`None` handler's result as it is: the outer `match handlerFor …` of the model's `dump`. -/
+def handlerLookupFirst : Bool := true
+
+/-- What the handler is called with: `X.H h v sm ia ig` (the configuration is the context `X`). -/
+def handlerCallArgs : List String := ["obj", "serialize_method", "ignore_attribute", "ignore", "config"]
+
+/-- `known_types = SUPPORTED_TYPES + tuple(config.serialize_handlers)`: `isKnown` consults the handler table. -/
+def knownTypesIncludeHandlers : Bool := true
+
+/-- `dumpBean`: (`ignore_list = getattr(obj, ignore_attribute, []) + ignore`, names removed from the discovered
+    fields by `difference_update` before the loop, `attr_value not in ignore_list` in the field test). -/
+def ignoreAssembly : Bool × Bool × Bool := (true, true, true)
+
+/-- `dumpTop`: `x or config.x` for the two names, `ignore or []`. -/
+def dumpDefaults : Bool × Bool × Bool := (true, true, true)
+
+/-- The attribute names `dump` reads from the object: `hasattr/getattr(obj, serialize_method)`,
+    `getattr(obj, ignore_attribute, [])`, `getattr(obj, attr_name)` — variables, never a literal name. -/
+def attributeNamesConsulted : List String :=
+  ["hasattr:serialize_method", "getattr:serialize_method", "getattr:ignore_attribute", "getattr:<var>"]
+
+/-- `load`: the empty-name and invalid-character tests precede `__import__` (`instantiate` tests `truthy` and
+    `validName` before `resolveClass`). -/
+def validationPrecedesImport : Bool := true
+
 end JRV.JsonClass
